@@ -595,10 +595,11 @@ def render_geom(rng, items, glue=0.0, breaks=0.05, comments=0.3, multi=0.2, widt
             s = " " * (rng.choice([2, 3, 6]) if rng.random() < multi else 1)
         if prev is not None and (rng.random() < breaks or len(cur) + len(s) + len(t) > width):
             if rng.random() < comments:
-                cur += " $ " + rng.choice(["a comment", "surf 5 here", "x=1 (not data)"])
+                cur += " $ " + rng.choice(["a comment", "surf 5 here", "x=1 (not data)", "aspect ratio 1:2",
+                                           "see #3 (old: 4:5)", "ratio 2:1 #", ": # ( ) &"])
             lines.append(cur)
             while rng.random() < comments * 0.5:
-                lines.append(rng.choice(["c interior comment", "C", "c     1 2 : 3"]))
+                lines.append(rng.choice(["c interior comment", "C", "c     1 2 : 3", "c #(4 5) : 6", "c ratio 1:2"]))
             cur = " " * rng.choice([5, 5, 6, 8])
             s = ""
         cur += s + t
@@ -901,6 +902,39 @@ def make_case(rng, stream, boost=0):
             if rng.random() < 0.5:
                 pr = ["W", pr]
         return {"stream": stream, "base_lines": None, "prog": pr}
+    if stream == "parsed-history":         # parsed, many comments / line breaks between operands, edited in place below the root
+        lines = render_geom(rng, items, glue=0.2, breaks=0.45, comments=0.9, multi=0.2, width=rng.choice([30, 48, 64]))
+        try:
+            ast = spec.parse_geometry(geom_tokens(lines))
+        except Exception:
+            ast = None
+
+        def apaths(a, pre=""):
+            out = []
+            if a[0] in ("and", "or"):
+                out += [(pre + "L", a[1][0]), (pre + "R", a[2][0])] + apaths(a[1], pre + "L") + apaths(a[2], pre + "R")
+            elif a[0] == "not":
+                out += [(pre + "L", a[1][0])] + apaths(a[1], pre + "L")
+            return out
+
+        pr = ["b"]
+        ps = apaths(ast) if ast else []
+        bins = [q for q in ps if q[1] in ("and", "or")]
+        for _ in range(rng.choice([1, 1, 2, 3])):
+            r = rng.random()
+            if ast and ast[0] in ("and", "or") and (r < 0.3 or not bins):
+                pr = [rng.choice(["XU", "XI", "XU"]), pr]
+            elif bins and r < 0.85:
+                pr = ["AT", rng.choice(bins)[0], rng.choice(["XU", "XI", "XU"]), pr]
+            elif ps:
+                path, kind = rng.choice(ps)
+                op = rng.choice(["IA", "IO"] if kind in ("leaf",) else ["SL", "IA", "IO"] if kind in ("not", "cell") else ["SL", "SR", "IA", "IO"])
+                pr = ["AT", path, op, pr, [rng.choice(["p", "n"]), rng.randint(1, N_SURF)]]
+            else:
+                pr = [rng.choice(["IA", "IO"]), pr, [rng.choice(["p", "n"]), rng.randint(1, N_SURF)]]
+            if rng.random() < 0.3:
+                pr = ["W", pr]
+        return {"stream": stream, "base_lines": lines, "prog": pr}
     if stream == "layout-setters":         # every layout feature at once, with setters
         return {"stream": stream, "base_lines": render_geom(rng, items, glue=0.5, breaks=0.3, comments=0.6, multi=0.4,
                                                             width=rng.choice([24, 40, 64])),
@@ -953,7 +987,7 @@ def make_case(rng, stream, boost=0):
 def model_streams():
     """streams whose cases are also run through the model (shortcut tokens are outside the model)"""
     return ("scratch", "scratch-setters", "unedited", "edited", "edited-setters", "glued-setters", "layout-setters",
-            "deep", "history", "corpus")
+            "deep", "history", "parsed-history", "corpus")
 
 
 def in_model(case):
@@ -1063,7 +1097,7 @@ def run(ctx):
              "edited-setters": 500 if quick else 10000, "glued-setters": 300 if quick else 6000,
              "layout-setters": 500 if quick else 10000, "alias": 300 if quick else 6000,
              "shortcut": 40 if quick else 800, "shortcut-edited": 60 if quick else 1200,
-             "deep": 30 if quick else 6000, "history": 800 if quick else 15000}
+             "deep": 30 if quick else 6000, "history": 800 if quick else 15000, "parsed-history": 800 if quick else 15000}
     if not quick:
         sizes = {k: int(v * 1.5) for k, v in sizes.items()}
     depth_boost = 0 if quick else 2
